@@ -266,9 +266,17 @@ def gen_cases(tier):
 
 def subs(tier, only=None):
     from ..engine import fast_tracebacks
+    from . import c14
     fast_tracebacks()
-    return [Sub('assign', gen_cases(tier), run_case,
-                rule='case = (spine kinds, leaf, destination segments, spelling, value kind, missing factory, function|spec form); '
-                     'compared with plain nested assignment on a copy (canonical snapshots, spine identities, read-back, factory call count)',
-                min_nontrivial=5000, min_outcomes=3,
-                required_tags=SPELLINGS + VALUES + [str(m) for m in MISSING] + MR.KINDS)]
+    out = []
+    if only in (None, 'assign'):
+        out.append(Sub('assign', gen_cases(tier), run_case,
+                       rule='case = (spine kinds, leaf, destination segments, spelling, value kind, missing factory, function|spec form); '
+                            'compared with plain nested assignment on a copy (canonical snapshots, spine identities, read-back, factory call count)',
+                       min_nontrivial=5000, min_outcomes=3,
+                       required_tags=SPELLINGS + VALUES + [str(m) for m in MISSING] + MR.KINDS))
+    if only in (None, 'wildcard-assign'):
+        out.append(Sub('wildcard-assign', [c for c in c14.gen_mutate(tier) if c[2] == 'assign'], c14.run_mutate,
+                       rule='case = (tree-shaped target, destination with 1-4 wildcards, function|spec form): assignment at every match, in order, '
+                            'against a plain loop (shared with C14)', min_nontrivial=10, min_outcomes=2))
+    return out
